@@ -46,7 +46,9 @@ func registerRead(ctx *Context, forward Forward, reg RegisterType, sequenceID in
 		return v
 	}
 
-	if v, exists := ctx.Transaction[reg]; exists {
+	// As with the RAT, a read on behalf of sequenceID ignores a value written
+	// by a following instruction.
+	if v, exists := ctx.Transaction[reg]; exists && (sequenceID == 0 || v.sequenceID <= sequenceID) {
 		return v.value
 	}
 	return ctx.Registers[reg]
